@@ -32,7 +32,7 @@ def one(d):
             env = dict(os.environ, VERIF_REPO=wt, VERIF_OUT=out, VERIF_WORKERS=os.environ.get("VERIF_WORKERS", "6"), VERIF_CAP_S=os.environ.get("VERIF_CAP_S", "7200"))
             r = subprocess.run([ROOT + '/check', pid, '--tier', tier], capture_output=True, text=True, env=env)
             sigs = [l.strip()[:300] for l in r.stdout.splitlines() if 'violation sig' in l]
-            res = 'silent' if r.returncode == 0 and 'VIOLATION' not in r.stdout else f'ALARM exit={r.returncode}: ' + ' | '.join(sigs[:6])
+            res = 'silent' if r.returncode == 0 and not any(l.startswith('VIOLATION') for l in r.stdout.splitlines()) else f'ALARM exit={r.returncode}: ' + ' | '.join(sigs[:6])
         m.setdefault('checked', {})[tier] = res
         json.dump(m, open(mp, 'w'), indent=1)
         return name, res
